@@ -32,6 +32,9 @@ DIST_CELLS = [
     ("G4-default", "G4u", {}, True, "flow"),
     ("latent-gaussian", "G2n", {"latent_prior": "gaussian", "constant_volume_mode": False}, True, "flow-untruncated"),
     ("latent-flow", "G2n", {"latent_prior": "flow", "constant_volume_mode": False}, True, "flow-untruncated"),
+    # augmented proposals: the contour lives in the augmented space, so only the comparison restricted to logL above the worst live point has an exact reference
+    ("augmented-marginalised", "G2u", {"marginalise_augment": True, "n_marg": 50}, True, "augmented"),
+    ("augmented-2-dims", "G2u", {"augment_dims": 2}, True, "augmented"),
     ("rejection-uniform", "G2u", {}, False, "rejection"),
     ("rejection-nonuniform", "G2n", {}, False, "rejection"),
     ("rejection-nonuniform-box-draws", "G2r", {}, False, "rejection"),
@@ -40,7 +43,7 @@ DIST_CELLS = [
     ("analytic-uniform", "G4u", {}, False, "analytic"),
 ]
 QUICK_DIST = ["tg-constant-volume", "tg-constant-volume-brief-training", "tg-nonuniform-prior", "tg-worst-point-radius", "nball", "accumulate-weights", "truncate-log-q",
-              "logit-reparam", "drawsize-200", "accumulate-weights-many-batches", "latent-gaussian", "rejection-nonuniform", "rejection-nonuniform-box-draws", "rejection-narrow-prior-box-draws", "analytic-nonuniform"]
+              "logit-reparam", "drawsize-200", "accumulate-weights-many-batches", "latent-gaussian", "augmented-marginalised", "augmented-2-dims", "rejection-nonuniform", "rejection-nonuniform-box-draws", "rejection-narrow-prior-box-draws", "analytic-nonuniform"]
 
 
 def ks2(a, b):
@@ -92,6 +95,9 @@ def dist_worker(case):
             res["pool_size"] = len(pool)
             return res
         kw = dict(case["kwargs"])
+        augmented = case["kind"] == "augmented"
+        if augmented:
+            from nessai.proposal.augmented import AugmentedFlowProposal as FlowProposal
         prop = FlowProposal(model, output=out, poolsize=N, plot=False, flow_config=dict(TINY_FLOW, n_neurons=8),
                             training_config=dict(max_epochs=30 if case["trained"] is True else 2, patience=10), **kw)
         prop.initialise()
@@ -120,19 +126,25 @@ def dist_worker(case):
         M = case["M"]
         ref = model.sample_prior(M, rng)
         ref["logL"] = model.raw_log_likelihood(ref)
-        z, logq = prop.forward_pass(ref.copy(), rescale=True, compute_radius=False)
-        rad = np.sqrt((z**2).sum(axis=1))
         truncated = prop.latent_prior in ("truncated_gaussian", "uniform_nball", "uniform_nsphere")
-        inside = rad <= prop.r * prop.fuzz if truncated else np.ones(len(ref), dtype=bool)
-        if prop.truncate_log_q:
-            min_log_q = prop.forward_pass(prop.training_data)[1].min()
-            inside &= logq > min_log_q
+        if augmented:
+            z = np.zeros((len(ref), len(model.names) + prop.augment_dims))
+            rad = np.zeros(len(ref))
+            inside = np.ones(len(ref), dtype=bool)
+            radp = np.zeros(len(pool))
+        else:
+            z, logq = prop.forward_pass(ref.copy(), rescale=True, compute_radius=False)
+            rad = np.sqrt((z**2).sum(axis=1))
+            inside = rad <= prop.r * prop.fuzz if truncated else np.ones(len(ref), dtype=bool)
+            if prop.truncate_log_q:
+                min_log_q = prop.forward_pass(prop.training_data)[1].min()
+                inside &= logq > min_log_q
+            zp, _ = prop.forward_pass(pool.copy(), rescale=True, compute_radius=False)
+            radp = np.sqrt((zp**2).sum(axis=1))
         refin = ref[inside]
         zin = rad[inside]
-        zp, _ = prop.forward_pass(pool.copy(), rescale=True, compute_radius=False)
-        radp = np.sqrt((zp**2).sum(axis=1))
         res["ref_inside"] = int(inside.sum())
-        if truncated and radp.max() > prop.r * prop.fuzz * (1 + 2e-3):
+        if truncated and not augmented and radp.max() > prop.r * prop.fuzz * (1 + 2e-3):
             res["problems"].append(("pool-point-outside-latent-contour", dict(max_radius=float(radp.max()), limit=float(prop.r * prop.fuzz))))
         if len(refin) < 2000:
             res["inconclusive"] = f"only {len(refin)} reference points inside the contour"
@@ -149,7 +161,7 @@ def dist_worker(case):
         res["latent_mass_inside_contour"] = mass
         literal_key = ("distribution:pool-differs-from-prior-restricted-to-contour" if mass < 0.99
                        else "distribution:wide-contour-unbounded-weights:pool-differs-from-prior-on-whole-contour")
-        for nm, a, b in [(n_, pool[n_], refin[n_]) for n_ in names] + [("logL", pool["logL"], refin["logL"]), ("latent_radius", radp, zin)]:
+        for nm, a, b in ([] if augmented else [(n_, pool[n_], refin[n_]) for n_ in names] + [("logL", pool["logL"], refin["logL"]), ("latent_radius", radp, zin)]):
             D = ks2(a, b)
             thr = ks_threshold(len(a), len(b), k, delta)
             res["stats"].append(dict(stat=nm, D=D, threshold=thr, n=len(a), m=len(b), delta=delta, kind="whole contour"))
